@@ -743,7 +743,7 @@ func checkProbe(p probeT, r *evid.Rec, skip map[string]bool) []evid.Disc {
 		r.Label("matrix:probe-gave-up(not judged):" + pair.String())
 		r.NotAsserted()
 	case o.blockedNotOnLock:
-		r.Label("matrix:method-blocks-without-lock-wait(not judged):" + pair.String())
+		r.Label("matrix:caller-stopped-outside-any-lock-wait(blocks by design or starved; not judged):" + pair.String())
 		r.NotAsserted()
 	case o.callerIter >= probeMinIter && o.lockerIter >= probeMinIter:
 		r.Label("matrix:both>=1000-iterations")
